@@ -253,11 +253,14 @@ func (x *Exec) loopEnter(st *State, fi int, li *loopInfo, from *ssa.BasicBlock) 
 		old := st.cells[c]
 		if old.It != nil {
 			nv := x.decls.Fresh("visited", old.It.Visited.Sort)
-			st.cells[c] = Value{It: &IterVal{Map: old.It.Map, Visited: nv, id: old.It.id, ord: old.It.ord}}
+			ncnt := x.decls.Fresh("visitedcount", "Int")
+			st.assume(Le(IntLit(0), ncnt))
+			st.cells[c] = Value{It: &IterVal{Map: old.It.Map, Visited: nv, Count: ncnt, Dom0: old.It.Dom0, id: old.It.id, ord: old.It.ord}}
 			if st.ghostLoc == nil {
 				st.ghostLoc = map[string]Value{}
 			}
 			st.ghostLoc[fmt.Sprintf("visited%d", old.It.ord)] = Value{T: nv}
+			st.ghostLoc[fmt.Sprintf("count%d", old.It.ord)] = Value{T: ncnt, Typ: types.Typ[types.Int]}
 			continue
 		}
 		if old.Loc != nil || old.Fn != nil || old.Tup != nil {
